@@ -135,7 +135,8 @@ func (s *sched) spawn(fr *frame, run func(g *goroutine)) {
 			r := recover()
 			g.done = true
 			if r != nil {
-				if _, ok := r.(abortPanic); !ok {
+				_, isCrash := r.(crashPanic)
+				if _, ok := r.(abortPanic); !ok && !isCrash {
 					// a target panic that reached the top of a goroutine crashes the program
 					s.i.topLevelPanic(g.top, r)
 				}
